@@ -57,6 +57,7 @@ type Probe struct {
 var fieldNames = map[string][]string{
 	"q":      {"P", "S", "G", "PG", "PP", "J"},
 	"uj":     {"U", "V", "S", "G", "J", "R", "RP"},
+	"mk":     {"U", "V", "S", "G", "J", "R", "RP"},
 	"render": {"R", "RP"},
 	"lex":    {"LEX"},
 	"spec":   {"OK"},
@@ -191,6 +192,15 @@ func ujProbe(data string) *Probe {
 		Impl: map[string]string{"U": r.U, "V": r.V, "S": r.S, "G": r.G, "J": r.J, "R": r.R, "RP": r.RP}}
 }
 
+// mkProbe: one call of the public constructor expr.Expr on described argument values ("<op>\t<left>\t<right>…")
+func mkProbe(call string) *Probe {
+	parts := strings.Split(strings.TrimRight(call, "\t"), "\t")
+	op, _ := strconv.Atoi(parts[0])
+	r := impl.RunMk(op, parts[1:])
+	return &Probe{Op: "mk", Req: "mk\t" + strings.Join(parts, "\t"), UJ: &r, Expr: r.Expr, Loose: strings.Contains(r.U, "opaque") || strings.Contains(r.U, "nilptr") || strings.Contains(call, "nilptr"),
+		Impl: map[string]string{"U": r.U, "V": r.V, "S": r.S, "G": r.G, "J": r.J, "R": r.R, "RP": r.RP}}
+}
+
 func renderProbe(e *expr.Expression, desc string) *Probe {
 	out := strings.Split(impl.RunRender(e, desc), "\t")
 	canon := impl.CanonExpr(e)
@@ -312,6 +322,21 @@ func probesOf(c *Case) []*Probe {
 		return []*Probe{lexProbe(c)}
 	case "uj":
 		return []*Probe{ujProbe(c.S)}
+	case "mk":
+		return []*Probe{mkProbe(c.S)}
+	case "mkrt":
+		// a constructor-built tree that is a parse result (re-parsing its printed form gives the identical tree) must
+		// round-trip through JSON like any parse result: probes = the query probe of the printed form + the decode probe
+		m := mkProbe(c.S)
+		if strings.HasPrefix(m.Impl["U"], "ok:") && strings.HasPrefix(m.Impl["S"], "ok:") && m.Impl["V"] == "1" {
+			printed, _ := hexDecode(m.Impl["S"][3:])
+			q := qProbe(printed, "")
+			if q.Impl["P"] == m.Impl["U"] && strings.HasPrefix(q.Impl["J"], "ok:") {
+				raw, _ := hexDecode(q.Impl["J"][3:])
+				return []*Probe{q, ujProbe(raw), m}
+			}
+		}
+		return []*Probe{m}
 	case "rt":
 		// query → JSON → decode: the second probe decodes the implementation's own encoding
 		q := qProbe(c.S, c.DF)
@@ -325,6 +350,8 @@ func probesOf(c *Case) []*Probe {
 		var first *Probe
 		if c.Aux == "json" {
 			first = ujProbe(c.S)
+		} else if c.Aux == "mk" {
+			first = mkProbe(c.S)
 		} else {
 			first = qProbe(c.S, c.DF)
 		}
@@ -398,7 +425,7 @@ func (e *engine) runBatch(id int, mp *modelproc.Proc, batch []Case) {
 			switch p0.Op {
 			case "q":
 				nontrivial = strings.HasPrefix(p0.Impl["P"], "ok:")
-			case "uj":
+			case "uj", "mk":
 				nontrivial = strings.HasPrefix(p0.Impl["U"], "ok:(E")
 			case "lex":
 				nontrivial = strings.Count(p0.Impl["LEX"], ":") >= 2
